@@ -190,10 +190,15 @@ def run(tier: str, seed: int) -> core.Report:
     rep.extra.update({"behaviours": len(behaviours), "monitor_hits": dict(hits), "executions_with_unexpected_driver_events": crashes})
     rep.samples = [behaviours[len(behaviours) // 2], behaviours[-1]]
     rep.assumptions = ["tasks are spawned with anyio task groups from inside the spawner's block", "how earlier blocks of a path ended is randomised (the model's state does not depend on it)"]
+    from .. import suitectx
+    suitectx.add_to(rep, PROP)
     return rep
 
 
 def replay(scenario):
+    if "recorded" in scenario:
+        from .. import suitectx
+        return suitectx.replay(PROP, scenario)
     t = execute(dict(scenario["case"], id="replay"))
     verdicts, _, _ = core.validate_traces("Trace_C12", [t])
     v = verdicts["replay"]
